@@ -43,6 +43,16 @@ pub enum UnwindResult<'a> {
   UnwindStopped,
 }
 
+/// The initial contents of a stack with `count` slots. Functions that need
+/// more slots than the shared array holds get their own buffer
+fn undefined_slots(count: usize) -> std::borrow::Cow<'static, [Value]> {
+  if count <= UNDEFINED_ARRAY.len() {
+    std::borrow::Cow::Borrowed(&UNDEFINED_ARRAY[0..count])
+  } else {
+    std::borrow::Cow::Owned(vec![VALUE_UNDEFINED; count])
+  }
+}
+
 fn frame_line(fun: ObjRef<Fun>, offset: usize) -> String {
   match &*fun.name() {
     SCRIPT => format!(
@@ -144,8 +154,9 @@ impl Fiber {
     let mut allocator = context.gc();
 
     // Create stack and assign fun to first slot
+    let undefined = undefined_slots(stack_count);
     let mut stack = UniqueVector::new(allocator.manage(
-      VecBuilder::new(&UNDEFINED_ARRAY[0..stack_count], stack_count),
+      VecBuilder::new(&undefined, stack_count),
       context,
     ));
 
@@ -615,8 +626,9 @@ impl Fiber {
     let mut allocator = context.gc();
 
     // Create the stack
+    let undefined = undefined_slots(stack_count);
     let mut stack = UniqueVector::new(allocator.manage(
-      VecBuilder::new(&UNDEFINED_ARRAY[0..stack_count], stack_count),
+      VecBuilder::new(&undefined, stack_count),
       context,
     ));
     allocator.push_root(stack);
